@@ -1056,6 +1056,28 @@ func (g *Gen) copyBuiltin(c *ssa.CallCommon, args []Term, res ssa.Value) {
 	g.assumeRaw(fmt.Sprintf("(forall ((r Int)) (! (=> (not (= r (sarr %s))) (= (select %s r) (select %s r))) :pattern ((select %s r))))", d.S, nv, old, nv))
 	g.assumeRaw(fmt.Sprintf("(forall ((i Int)) (! (= (select (select %s (sarr %s)) i) (ite (and (<= (soff %s) i) (< i (+ (soff %s) %s))) %s (select (select %s (sarr %s)) i))) :pattern ((select (select %s (sarr %s)) i))))",
 		nv, d.S, d.S, d.S, n, src, old, d.S, nv, d.S))
+	// the same facts keyed on (idx BASE j) of the slices the operands were cut from, so that quantified
+	// invariants over the base slices (triggered on idx) connect across the copy
+	base := func(v ssa.Value, t Term) (Term, string) {
+		if sl, ok := v.(*ssa.Slice); ok {
+			if _, isSlice := sl.X.Type().Underlying().(*types.Slice); isSlice {
+				lo := "0"
+				if sl.Low != nil {
+					lo = g.term(sl.Low).S
+				}
+				return g.term(sl.X), lo
+			}
+		}
+		return t, "0"
+	}
+	D, a := base(c.Args[0], d)
+	if s.Sort != "Str" {
+		S, cc := base(c.Args[1], s)
+		g.assumeRaw(fmt.Sprintf("(forall ((j Int)) (! (=> (and (<= %s j) (< j (+ %s %s))) (= (select (select %s (sarr %s)) (idx %s j)) (select (select %s (sarr %s)) (idx %s (+ (- j %s) %s))))) :pattern ((idx %s j))))",
+			a, a, n, nv, D.S, D.S, old, S.S, S.S, a, cc, D.S))
+	}
+	g.assumeRaw(fmt.Sprintf("(forall ((j Int)) (! (=> (or (< j %s) (>= j (+ %s %s))) (= (select (select %s (sarr %s)) (idx %s j)) (select (select %s (sarr %s)) (idx %s j)))) :pattern ((idx %s j))))",
+		a, a, n, nv, D.S, D.S, old, D.S, D.S, D.S))
 }
 
 // frameCheck: a function whose contract declares a frame (modifies / pure) must leave every other
